@@ -610,11 +610,24 @@ def rule_stack_writers(ctx: Ctx, prog: Program, thorough: bool = False) -> None:
     fn = prog.func(f"{prog.package}.solvers.backtrack_solver", "BacktrackSolver.__init__")
     import ast as _ast
 
-    src = _ast.unparse(fn.node)
-    if "self.triggered_propagators = np.ones(" in src:
-        ctx.ok("R-ANNOUNCE", "constructor: every propagator is queued initially (np.ones)")
+    it0 = Interp(prog, no_inline={"cp_init": None})
+    all_queued = True
+    n_paths = 0
+    for r in it0.run(fn):
+        if r.outcome != "return":
+            continue
+        n_paths += 1
+        st_ev = [e for e in r.events if e.kind == "store" and e.root == "self.triggered_propagators" and not e.idx]
+        v = as_view(st_ev[-1].value) if st_ev else None
+        cell = it0.load_at(r.state, len(r.state.heap), v.root, (S("any_constraint"),)) if isinstance(v, View) else None
+        if not (isinstance(cell, Aff) and cell == ONE):
+            all_queued = False
+    if all_queued and n_paths:
+        ctx.ok("R-ANNOUNCE", "constructor: every propagator is queued initially")
     else:
-        ctx.violation("R-ANNOUNCE", fn.path, fn.qualname, "initial-queue", fn.loc(), "the propagation queue does not start with every propagator queued")
+        ctx.violation("R-ANNOUNCE", fn.path, fn.qualname, "initial-queue", fn.loc(),
+                      "the propagation queue of a new solver does not start with every propagator queued: a constraint that is not queued is never "
+                      "executed on the initial domains (e.g. a violated constraint over instantiated variables is never noticed)")
 
 
 # ------------------------------------------------------------------ R-WAKEUP: the wake-up primitive itself
